@@ -346,6 +346,12 @@ partial def interp (now : Nat) (ch : DChain) (ro : Bool) (acts : List Sx) (own :
         let o := if a 3 == "desc" then Order.desc else Order.asc
         next own resp (notes ++ ["rngk=[" ++ ",".intercalate ((own.range s e o).map fun p => hex p.1) ++ "]"])
       | _, _ => (.err, notes)
+    | "rngv" =>
+      match unhexOpt (a 1), unhexOpt (a 2) with
+      | some s, some e =>
+        let o := if a 3 == "desc" then Order.desc else Order.asc
+        next own resp (notes ++ ["rngv=[" ++ ",".intercalate ((own.range s e o).map fun p => hex p.2) ++ "]"])
+      | _, _ => (.err, notes)
     | "attr" =>
       match pdec (a 1), pdec (a 2) with
       | some k, some v => next own { resp with attrs := resp.attrs ++ [⟨k, v⟩] } notes
